@@ -29,11 +29,26 @@ def _worker(arg):
     try:
         prof = load_profile(pid)
         t0 = time.time()
-        res = prof.run_task(task, tier)
+        if isinstance(task, dict) and "hashseed" in task and os.environ.get("PDTMC_SUBTASK") != "1":
+            res = run_subtask(pid, tier, task)
+        else:
+            res = prof.run_task(task, tier)
         res["wall"] = time.time() - t0
         return res
     except Exception:  # noqa: BLE001
         return {"harness_error": traceback.format_exc(), "task": task}
+
+
+def run_subtask(pid, tier, task):
+    """run one task in a fresh interpreter with its own PYTHONHASHSEED"""
+    env = dict(os.environ)
+    env["PYTHONHASHSEED"] = str(task["hashseed"])
+    env["PDTMC_SUBTASK"] = "1"
+    r = subprocess.run([PY, "-m", "pdtmc.subtask", pid, tier], input=json.dumps(task), cwd=ROOT, env=env,
+                       stdout=subprocess.PIPE, stderr=subprocess.PIPE, text=True)
+    if r.returncode != 0:
+        raise RuntimeError(f"subtask failed ({r.returncode}): {r.stderr[-3000:]}")
+    return json.loads(r.stdout[r.stdout.index("\x1e") + 1:])
 
 
 def digest(obj) -> str:
@@ -61,12 +76,13 @@ def merge(total, res):
     total["task_wall"] = total.get("task_wall", 0.0) + res.get("wall", 0.0)
 
 
-def fresh_replay(path, times=2):
-    """re-execute a replay file in fresh processes; -> list of exit codes"""
+def fresh_replay(path, times=2, hashseed=None):
+    """re-execute a replay file in fresh processes; -> list of exit codes.  The hash seed
+    differs between the runs unless the violation was recorded under a specific one."""
     codes = []
     for i in range(times):
         env = dict(os.environ)
-        env["PYTHONHASHSEED"] = str(i + 1)
+        env["PYTHONHASHSEED"] = str(hashseed if hashseed is not None else i + 1)
         r = subprocess.run([PY, "-m", "pdtmc.replay", path], cwd=ROOT, env=env,
                            stdout=subprocess.PIPE, stderr=subprocess.STDOUT, text=True)
         codes.append((r.returncode, r.stdout[-2000:]))
@@ -143,7 +159,7 @@ def run_check(pid: str, tier: str, seed: int) -> int:
         path = os.path.join(rdir, digest([c, v["world"], v["history"], v.get("params")]) + ".json")
         with open(path, "w") as f:
             json.dump(rec, f, indent=1, default=str)
-        codes = fresh_replay(path)
+        codes = fresh_replay(path, hashseed=(v.get("params") or {}).get("hashseed"))
         if all(code == 1 for code, _ in codes):
             print(f"VIOLATION property={pid} replay={path}")
             print(f"  class: {c}")
